@@ -95,4 +95,7 @@ def exitZero (f : Flags) (r : Results) : Bool :=
   let (n, e) := run f r
   !e && n == 0
 
+/-- `runCheck` first resolves the configuration file (explicit `--config` must exist); failing that it returns an error before any analysis -/
+def exitZeroCfg (configResolved : Bool) (f : Flags) (r : Results) : Bool := configResolved && exitZero f r
+
 end PV.Gate
